@@ -44,6 +44,16 @@ type Config struct {
 	// Reactive: the emulated consumer module reacts to the "cannot pay" notification by killing its
 	// (repeated) context from inside the state callback, as a real host module may do
 	Reactive bool `json:"reactive_module,omitempty"`
+	// BaseDenom: the module's base denomination parameter ("" = "stake", the only coin that exists in
+	// the harness's bank); changed only by a governance parameter change during the history
+	BaseDenom string `json:"base_denom,omitempty"`
+}
+
+func (c Config) baseDenom() string {
+	if c.BaseDenom == "" {
+		return "stake"
+	}
+	return c.BaseDenom
 }
 
 type ModOutcome struct {
@@ -352,7 +362,7 @@ func paramsOf(cfg Config) types.Params {
 		minDep = sdk.NewCoins(sdk.NewCoin("stake", sdk.NewInt(*cfg.MinDeposit)))
 	}
 	return types.NewParams(cfg.MaxTimeout, cfg.Multiple, minDep, decOf(cfg.Tax), decOf(cfg.Slash),
-		time.Duration(cfg.ComplaintNs), time.Duration(cfg.ArbitrationNs), 4000, "stake")
+		time.Duration(cfg.ComplaintNs), time.Duration(cfg.ArbitrationNs), 4000, cfg.baseDenom())
 }
 
 // setParams applies a governance parameter change; the world's configuration (which the
@@ -365,6 +375,7 @@ func (w *World) setParams(rec *StepRec, a Action) {
 	n := w.cfg
 	n.Tax, n.Slash, n.MaxTimeout, n.MinDeposit, n.Multiple = a.Params.Tax, a.Params.Slash, a.Params.MaxTimeout, a.Params.MinDeposit, a.Params.Multiple
 	n.ArbitrationNs, n.ComplaintNs = a.Params.ArbitrationNs, a.Params.ComplaintNs
+	n.BaseDenom = a.Params.BaseDenom
 	p := paramsOf(n)
 	if err := p.Validate(); err != nil {
 		rec.Err = err.Error()
@@ -505,7 +516,7 @@ func (w *World) modCall(ctx sdk.Context, m Action, rec *StepRec) error {
 		if m.Desc == "paused" {
 			st = types.PAUSED
 		}
-		id, err := w.k.CreateRequestContext(ctx, m.Service, addrs(m.Providers), addr(m.Signer), m.Input, coinsOf(m.FeeCap),
+		id, err := w.k.CreateRequestContext(ctx, m.Service, addrs(m.Providers), addr(m.Signer), m.Input, m.capOf(),
 			m.Timeout, m.Super, m.Repeated, m.Freq, m.Total, st, m.Threshold, VMod)
 		if err == nil {
 			rec.CtxIDs = append(rec.CtxIDs, hx(id))
@@ -518,7 +529,7 @@ func (w *World) modCall(ctx sdk.Context, m Action, rec *StepRec) error {
 	case KModKill:
 		return w.k.KillRequestContext(ctx, unhx(m.CtxID), addr(m.Signer))
 	case KModUpdate:
-		return w.k.UpdateRequestContext(ctx, unhx(m.CtxID), addrs(m.Providers), m.Threshold, coinsOf(m.FeeCap), m.Timeout, m.Freq, m.Total, addr(m.Signer))
+		return w.k.UpdateRequestContext(ctx, unhx(m.CtxID), addrs(m.Providers), m.Threshold, m.capOf(), m.Timeout, m.Freq, m.Total, addr(m.Signer))
 	}
 	panic("harness: unknown action kind " + m.Kind)
 }
